@@ -230,7 +230,9 @@ mod resp {
 
     fn part(rng: &mut Rng, binary: bool) -> ContentRange {
         let n = if rng.below(5) == 0 { 0 } else { rng.below(40) as usize };
-        let body: Vec<u8> = (0..n).map(|_| if binary { rng.next() as u8 } else { b'a' + (rng.below(26) as u8) }).collect();
+        let mut body: Vec<u8> = (0..n).map(|_| if binary { rng.next() as u8 } else { b'a' + (rng.below(26) as u8) }).collect();
+        // bodies that themselves end in line breaks: the reader must give back exactly these bytes, not a trimmed version
+        match rng.below(8) { 0 => body.extend(b"\r\n"), 1 => body.extend(b"\n"), 2 => body.extend(b"\r"), 3 => body.extend(b"\n\r\n\n"), _ => {} }
         let start = rng.below(1000);
         ContentRange { unit: "bytes".to_string(), range: Range { start, end: start + rng.below(60) }, size: (5000 + rng.below(100)).to_string(), body, content_type: "text/plain".to_string() }
     }
@@ -942,6 +944,17 @@ mod parsers {
             let mm = m.clone();
             if panic::catch_unwind(move || { let c = std::io::Cursor::new(&mm[..]); let _ = crate::entry_point::config_file::read_config_file(c, "".to_string()); }).is_err() {
                 h.hit("parsers", "c20_panic_config_file", "read_config_file", &String::from_utf8_lossy(&m), "panic");
+            }
+        }
+        // C15: status lines that are not "<supported version> <registered code> <its phrase>" are rejected, the exact ones accepted
+        for (line, ok) in [("HTTP/1.1 200 OK", true), ("HTTP/1.1 200 ok", true), ("HTTP/1.1 404 Not Found", true), ("HTTP/1.1 200 OKAY", false), ("HTTP/1.1 200 OK ", false),
+                           ("HTTP/1.1 404 Not Found Anywhere", false), ("HTTP/1.1 404 Not", false), ("HTTP/1.1 200 O", false), ("HTTP/1.1 200 ", false), ("HTTP/1.1 299 OK", false),
+                           ("HTTP/1.1 404 OK", false), ("HTTP/9.9 200 OK", false), ("HTTP/1.1 206 Partial Content", true),
+                           ("HTTP/1.1 206 Partial ContentX", false), ("HTTP/1.1 206 Partial", false), ("HTTP/1.1 200 OK OK", false)] {
+            let raw = format!("{}\r\nContent-Length: 0\r\n\r\n", line).into_bytes();
+            match panic::catch_unwind(|| Response::parse(&raw).is_ok()) {
+                Err(_) => h.hit("parsers", "c15_status_line_panic", "Response::parse", line, "panic"),
+                Ok(got) => if got != ok { h.hit("parsers", "c15_status_line", "Response::parse", line, &format!("accepted: {}, expected: {}", got, ok)); }
             }
         }
         // C15: both serialisers, read back
